@@ -114,6 +114,17 @@ def structure_obligations():
                                 rows.append(dict(kind="batch_handle_access", cls=cname, accessor=bm, access=what, got=f"{ins.op} {vals}"))
             except Exception as e:
                 rows.append(dict(kind="batch_accessor_raises", cls=cname, detail=f"{type(e).__name__}: {e}"))
+        # (2a) the hand-written base properties of the singular and the plural form carry their own logic type
+        if plural is not None:
+            for bp in ("PrefabHash", "ReferenceId", "NameHash"):
+                for holder, hn in ((inst, "plural"), (inst["probe name"], "named plural"), (cls("d0"), "singular")):
+                    try:
+                        lt = getattr(getattr(holder, bp), "_logic_type", None)
+                        n += 1
+                        if getattr(lt, "name", lt) != bp:
+                            rows.append(dict(kind="base_property_logic_type", cls=cname, prop=bp, form=hn, got=str(getattr(lt, "name", lt))))
+                    except Exception as e:
+                        rows.append(dict(kind="base_property_raises", cls=cname, prop=bp, form=hn, detail=f"{type(e).__name__}: {e}"))
         # (2b) slot access through the plural form: operand order of lbs / lbns / sbs (prefab hash, [name
         # hash,] slot index, slot type, batch mode | value) and of ls / ss on the single device
         def _norm(v):
